@@ -290,6 +290,29 @@ def correspondence(ctx):
     n_def = isclose_definition(ctx, r, dis, fails)
     n_calls += n_def
     n_calls += dtype_shape_pairs(ctx, r, dis, fails)
+    from harness import backends as _Bk
+    fbad, fst = _Bk.function_form_lattice(ctx)
+    n_calls += fst["function_form_calls"]
+    fseen = set()
+    for a_, b_, k_ in fbad:
+        if k_ in fseen or not any(x in k_ for x in ("isclose", "allclose", "equal")):
+            continue
+        fseen.add(k_)
+        dis.append(f"{a_} :: {b_}"[:300])
+        fails.append({"key": k_, "what": f"{a_}: {b_}"[:400], "code": (
+            "import sys; sys.path.insert(0, %r); sys.path.insert(0, %r)\nfrom harness import backends as Bk\nclass X: seed=%d; tier=%r\n"
+            "bad, _ = Bk.function_form_lattice(X)\nhit=[b for b in bad if b[2]==%r]\nassert not hit, hit[0][0] + ' :: ' + hit[0][1]\n" % (C.VERIF, C.VERIF + "/tools", ctx.seed, ctx.tier, k_))})
+    # the same predicates inside numba-compiled code on near-equal operand pairs (default and explicit tolerances, every dimension)
+    from harness import c07
+    import multiprocessing as mp
+    cjobs = c07.closeness_jobs(r, ctx.tier)
+    with mp.get_context("spawn").Pool(min(8, len(cjobs))) as pool:
+        cres = pool.map(c07.probe_worker, cjobs)
+    for src, toks, interp, comp in cres:
+        n_calls += 1
+        if not c07.same(interp, comp):
+            dis.append(f"compiled closeness/equality predicates on {toks}: interpreter {str(interp)[:160]}, compiled {str(comp)[:160]}")
+            fails.append({"key": "numba-closeness", "what": dis[-1][:400], "code": c07.probe_replay(src, toks)})
     ans = leanio.eval_float(reqs)
     for (op, key, tag, real, want), got in zip(expect, ans):
         if got[0] != "b":
